@@ -9,22 +9,42 @@ the statement list the source denotes — for every body, nesting depth and chai
 namespace SemVerif
 
 /-- declaring a value under an internal name the root registry does not hold yet -/
-theorem drel_declare {s : St} {ss : SpecSt} (hr : DRel s ss) (n : Name) (v : Value) (i : Instr) (d : DStmt)
+theorem drel_declare {g : Globals} {R : Ty} {s : St} {ss : SpecSt} (hr : DRel g R s ss) (n : Name) (v : Value) (i : Instr) (d : DStmt)
     (hfresh : v.innerName ∉ s.root.innerNames)
     (habs : abstractStep s.abs i = ({ s.abs with decls := s.abs.decls ++ [v.innerName] } : AbsSt).emit d)
-    (hw : i.writes = none) (hrd : ∀ q ∈ i.reads, q ≤ s.curReg ∧ s.abs.bound q = true) :
-    DRel (((s.insertValue n v).registerInner v.innerName).push i) ((ss.declare n v.ty v.mutable).1.emit d) := by
+    (hw : i.writes = none) (hrd : ∀ q ∈ i.reads, q ≤ s.curReg ∧ s.abs.bound q = true)
+    (hstep : tyStepEnv s.tenv i = { s.tenv with decls := v :: s.tenv.decls })
+    (hty : ∀ b ∈ tyStepBad (cOkOf g) (fOkOf g) R s.tenv i, b.known i = true) :
+    DRel g R (((s.insertValue n v).registerInner v.innerName).push i) ((ss.declare n v.ty v.mutable).1.emit d) := by
   have hnot : v.innerName ∉ s.abs.decls := fun hm => hfresh (hr.reg _ hm)
   have habs' : (((s.insertValue n v).registerInner v.innerName).push i).abs =
       ({ s.abs with decls := s.abs.decls ++ [v.innerName] } : AbsSt).emit d := by
     rw [abs_push, abs_registerInner, abs_insertValue, habs]
   have hlen : s.abs.decls.length = ss.next := hr.next
-  refine ⟨⟨?_, ?_⟩, ?_, ?_, ?_, ?_⟩
-  rotate_left 5
+  have htenv : (((s.insertValue n v).registerInner v.innerName).push i).tenv =
+      { s.tenv with decls := v :: s.tenv.decls } := by
+    rw [tenv_push, tenv_registerInner, tenv_insertValue, hstep]
+  have hroot : (((s.insertValue n v).registerInner v.innerName).push i).root.innerNames =
+      setInsert v.innerName s.root.innerNames := by
+    unfold St.push St.registerInner St.mapFrames St.insertValue St.mapCur
+    cases s.inner <;> rfl
+  have hold : ∀ w, s.tenv.declOk w = true → w.innerName ≠ v.innerName := by
+    intro w hw' hev
+    have := hr.scope.dn w (declOk_mem hw')
+    rw [hev] at this
+    exact hfresh this
+  refine ⟨⟨?_, ?_, ?_, ?_⟩, ?_, ?_, ?_, ?_, ?_⟩
+  rotate_left 7
   · apply rd_push_nowrite (rd_insertRegister hr.rd _ _ _) _ hw
     intro q hq
     rw [curReg_insertRegister, abs_registerInner, abs_insertValue]
     exact hrd q hq
+  · apply tok_push _ (tok_of_ctx _ hr.tok)
+    · intro bb hb
+      rw [tenv_registerInner, tenv_insertValue] at hb
+      exact hty bb hb
+    · unfold St.registerInner St.mapFrames St.insertValue St.mapCur
+      cases s.inner <;> rfl
   · unfold ScopeRel
     rw [vals_push, vals_registerInner]
     obtain ⟨x, rest, hx, hins⟩ := vals_insertValue n v s
@@ -47,6 +67,28 @@ theorem drel_declare {s : St} {ss : SpecSt} (hr : DRel s ss) (n : Name) (v : Val
       dsimp only
       rw [← hlen]
       exact dvals_declare hdv' n v _ (pjD_new _ v hnot)
+  · rw [htenv, vals_push, vals_registerInner]
+    obtain ⟨x, rest, hx, hins⟩ := vals_insertValue n v s
+    rw [hins]
+    intro fr hfr k w hw'
+    have hcase : w = v ∨ s.tenv.declOk w = true := by
+      simp only [List.mem_cons] at hfr
+      rcases hfr with rfl | hfr
+      · by_cases hk : k = n
+        · subst hk; rw [assocGet_insert_self] at hw'; injection hw' with hw'; exact Or.inl hw'.symm
+        · rw [assocGet_insert_ne _ _ _ _ hk] at hw'
+          exact Or.inr (hr.scope.dk x (by rw [hx]; simp) k w hw')
+      · exact Or.inr (hr.scope.dk fr (by rw [hx]; simp [hfr]) k w hw')
+    rcases hcase with rfl | hok
+    · exact declOk_self _ _ _
+    · exact declOk_cons (fun e => hold w hok e.symm) hok
+  · rw [htenv, hroot]
+    intro d' hd
+    simp only [List.mem_cons] at hd
+    rw [mem_setInsert]
+    rcases hd with rfl | hd
+    · exact Or.inl rfl
+    · exact Or.inr (hr.scope.dn d' hd)
   · rw [habs']
     simp only [AbsSt.emit_out, SpecSt.declare, SpecSt.emit]
     rw [hr.out]
@@ -56,10 +98,6 @@ theorem drel_declare {s : St} {ss : SpecSt} (hr : DRel s ss) (n : Name) (v : Val
   · intro m hm
     rw [habs'] at hm
     simp only [AbsSt.emit_decls, List.mem_append, List.mem_singleton] at hm
-    have hroot : (((s.insertValue n v).registerInner v.innerName).push i).root.innerNames =
-        setInsert v.innerName s.root.innerNames := by
-      unfold St.push St.registerInner St.mapFrames St.insertValue St.mapCur
-      cases s.inner <;> rfl
     rw [hroot, mem_setInsert]
     rcases hm with hm | rfl
     · right; exact hr.reg m hm
@@ -67,8 +105,8 @@ theorem drel_declare {s : St} {ss : SpecSt} (hr : DRel s ss) (n : Name) (v : Val
 
 /-! ### Parameters -/
 
-theorem den_initParams : ∀ (ps : List (Name × ATy)) (s : St) (ss : SpecSt), ParamInv s → DRel s ss →
-    (initParams ps s).errors = s.errors → DRel (initParams ps s) (specParams ps ss)
+theorem den_initParams {g : Globals} {R : Ty} : ∀ (ps : List (Name × ATy)) (s : St) (ss : SpecSt), ParamInv s → DRel g R s ss →
+    (initParams ps s).errors = s.errors → DRel g R (initParams ps s) (specParams ps ss)
   | [], s, ss, _, hr, _ => by unfold initParams specParams; exact hr
   | (n, t) :: rest, s, ss, hinv, hr, he => by
     unfold initParams at he ⊢
@@ -90,6 +128,7 @@ theorem den_initParams : ∀ (ps : List (Name × ATy)) (s : St) (ss : SpecSt), P
         have := hkeys n hc; rw [hlook] at this; simp at this
       have hstep := drel_declare hr n ⟨n, t.toTy, false, false, false⟩ (.fnArg ⟨n, t.toTy, false, false, false⟩ ⟨n, t.toTy⟩)
         (.param s.abs.decls.length) hfresh (by simp [abstractStep, AbsSt.emit]) rfl (fun q hq => by simp [Instr.reads] at hq)
+        rfl (fun b hb => by simp [tyStepBad] at hb)
       have hnext : (.param s.abs.decls.length : DStmt) = .param (ss.declare n t.toTy false).2 := by
         rw [hr.next]; rfl
       rw [hnext] at hstep
@@ -118,7 +157,7 @@ theorem den_initParams : ∀ (ps : List (Name × ATy)) (s : St) (ss : SpecSt), P
 
 /-! ### The statement loop of `function_body` -/
 
-variable {g : Globals} {rg : RGlobals}
+variable {g : Globals} {R : Ty} {rg : RGlobals}
 
 theorem fnReturn_len (resTy : Ty) (e : Expr) (rc : Bool) (s : St) :
     (fnReturn g resTy e rc s).1.inner.length = s.inner.length := by
@@ -149,8 +188,8 @@ theorem fnReturn_len (resTy : Ty) (e : Expr) (rc : Bool) (s : St) :
       · rw [(push_fields _ _).2, h4, h3, h2]
 
 theorem den_bodyStmts (hg : GlobRel g rg) (hn : GNames g) (resTy : Ty) : ∀ (l : List BodyStmt) (rc : Bool),
-    BodyStmt.anaOKL l = true → ∀ s ss, DRel s ss → (bodyStmts g resTy l rc s).1.errors = s.errors →
-      DRel (bodyStmts g resTy l rc s).1 (specBody false rg l ss) ∧ (bodyStmts g resTy l rc s).1.inner.length = s.inner.length
+    BodyStmt.anaOKL l = true → ∀ s ss, DRel g resTy s ss → (bodyStmts g resTy l rc s).1.errors = s.errors →
+      DRel g resTy (bodyStmts g resTy l rc s).1 (specBody false rg l ss) ∧ (bodyStmts g resTy l rc s).1.inner.length = s.inner.length
   | [], _ => by
     intro _ s ss hr _
     unfold bodyStmts specBody
@@ -217,27 +256,34 @@ theorem den_bodyStmts (hg : GlobRel g rg) (hn : GNames g) (resTy : Ty) : ∀ (l 
 
 /-! ### The whole function -/
 
-theorem drel_init : DRel St.init SpecSt.init := by
-  refine ⟨⟨?_, ?_⟩, rfl, rfl, ?_, ?_⟩
-  · unfold ScopeRel St.vals St.frames
-    exact ValsRel.cons (fun n => by simp [St.init, Block.fresh, assocGet, rlookup]) ValsRel.nil
-  · show DVals [] [[]] [[]]
-    exact DVals.cons (fun n => by simp [assocGet, rlookup]) DVals.nil
+theorem drel_init {g : Globals} {R : Ty} : DRel g R St.init SpecSt.init := by
+  refine ⟨⟨?_, ?_, ?_, ?_⟩, rfl, rfl, ?_, ?_, ?_⟩
+  rotate_left 4
   · intro n hn; cases hn
   · refine ⟨by intro b hb; simp [St.init] at hb, rfl, ?_⟩
     intro pre i post h
     simp [St.init, Block.fresh] at h
+  · intro pb hpb; simp [St.init, Block.fresh, typedGo] at hpb
+  · unfold ScopeRel St.vals St.frames
+    exact ValsRel.cons (fun n => by simp [St.init, Block.fresh, assocGet, rlookup]) ValsRel.nil
+  · show DVals [] [[]] [[]]
+    exact DVals.cons (fun n => by simp [assocGet, rlookup]) DVals.nil
+  · intro fr hfr n v hv
+    simp [St.vals, St.frames, St.init, Block.fresh] at hfr
+    subst hfr; simp [assocGet] at hv
+  · intro d hd; simp [St.tenv, St.init, Block.fresh, TyEnv.init] at hd
 
 /-- **T2** for one function: if its analysis reports no error, the abstract reading of the emitted
 root stack is the statement list the source denotes -/
 theorem T2_function (hg : GlobRel g rg) (hn : GNames g) (f : FnDecl) (hok : BodyStmt.anaOKL f.body = true)
     (he : (functionBody g f).errors = []) :
-    abstractStack (functionBody g f).root.context = specStmts false rg f ∧ RdInv (functionBody g f) := by
+    abstractStack (functionBody g f).root.context = specStmts false rg f ∧ RdInv (functionBody g f) ∧
+    TOK g f.result.toTy (functionBody g f) := by
   unfold functionBody at he ⊢
   unfold specStmts
   dsimp only at he ⊢
   have x1 := (esteps_initParams f.params St.init paramInv_init).errors_ext
-  have h1 := den_initParams f.params St.init SpecSt.init paramInv_init drel_init
+  have h1 := den_initParams (g := g) (R := f.result.toTy) f.params St.init SpecSt.init paramInv_init drel_init
   generalize initParams f.params St.init = s1 at he x1 h1 ⊢
   have x2 := (steps_bodyStmts g f.result.toTy f.body false s1).errors_ext
   have h2 := den_bodyStmts hg hn f.result.toTy f.body false hok s1 (specParams f.params SpecSt.init)
@@ -259,6 +305,6 @@ theorem T2_function (hg : GlobRel g rg) (hn : GNames g) (f : FnDecl) (hok : Body
       simp [St.addErr] at this
     · rfl
   subst hrc
-  exact ⟨r2.out, r2.rd⟩
+  exact ⟨r2.out, r2.rd, r2.tok⟩
 
 end SemVerif
